@@ -20,6 +20,9 @@ type c08Op struct {
 	Pending *uint64 `json:"pending,omitempty"`
 	Fault   string  `json:"fault,omitempty"` // "" | estimate | tip | price | sign | submit
 	C       uint64  `json:"c,omitempty"`
+	// this send and the next one are issued at the same time: the second arrives while the first is
+	// inside its gas-estimate call to the chain node (for the model: two sends, in this order)
+	Overlap bool `json:"overlap,omitempty"`
 }
 type c08In struct {
 	Tag string  `json:"tag"`
@@ -51,7 +54,72 @@ func c08Run(t *testing.T, in c08In, rng *vrng) c08Obs {
 	defer func() { c.Close() }()
 	obs := c08Obs{Events: []c08Ev{}}
 	to := common.HexToAddress("0xbeef")
-	for _, op := range in.Ops {
+	skip := false
+	for i, op := range in.Ops {
+		if skip {
+			skip = false
+			continue
+		}
+		if op.T == "send" && op.Overlap && i+1 < len(in.Ops) && in.Ops[i+1].T == "send" {
+			skip = true
+			stub.mu.Lock()
+			stub.pendingErr, stub.fault = false, ""
+			stub.pending = *op.Pending
+			before := len(stub.accepted)
+			stub.gasArmed, stub.gasHit, stub.gasRel = true, make(chan struct{}), make(chan struct{})
+			hit, rel := stub.gasHit, stub.gasRel
+			stub.mu.Unlock()
+			ks.mu.Lock()
+			ks.failSign = false
+			ks.mu.Unlock()
+			done1, done2 := make(chan error, 1), make(chan error, 1)
+			send := func(done chan error) {
+				_, err := c.Send(context.Background(), &TxRequest{To: &to, CallData: []byte{1}, Value: big.NewInt(0)})
+				done <- err
+			}
+			go send(done1)
+			var e1, e2 error
+			first := false
+			select {
+			case <-hit: // the first send is inside newTx
+			case e1 = <-done1: // refused before it got there (window)
+				first = true
+			case <-time.After(2 * time.Second):
+			}
+			go send(done2)
+			time.Sleep(15 * time.Millisecond) // the second runs as far as the client lets it
+			stub.mu.Lock()
+			stub.gasArmed = false
+			stub.mu.Unlock()
+			close(rel)
+			if !first {
+				e1 = <-done1
+			}
+			e2 = <-done2
+			stub.mu.Lock()
+			acc := append([]uint64{}, stub.accepted[before:]...)
+			stub.mu.Unlock()
+			nOK := 0
+			for _, e := range []error{e1, e2} {
+				if e == nil {
+					nOK++
+				}
+			}
+			if len(acc) != nOK {
+				obs.Note = "overlapping sends: result inconsistent with what the node accepted"
+				n := uint64(len(acc))
+				obs.Events = append(obs.Events, c08Ev{T: "inconsistent", Nonce: &n})
+				continue
+			}
+			for _, n := range acc {
+				n := n
+				obs.Events = append(obs.Events, c08Ev{T: "sent", Nonce: &n, Pending: op.Pending})
+			}
+			for k := nOK; k < 2; k++ {
+				obs.Events = append(obs.Events, c08Ev{T: "failed", Pending: op.Pending})
+			}
+			continue
+		}
 		switch op.T {
 		case "send":
 			stub.mu.Lock()
@@ -135,6 +203,9 @@ func TestVerifC08(t *testing.T) {
 		{"outside-tx", []c08Op{{T: "send", Pending: u(3)}, {T: "send", Pending: u(9)}, {T: "send", Pending: u(4)}, {T: "send", Pending: u(11)}}},
 		{"restart", []c08Op{{T: "send", Pending: u(3)}, {T: "send", Pending: u(3)}, {T: "restart"}, {T: "send", Pending: u(5)}, {T: "send", Pending: u(5)}}},
 		{"pending-error", []c08Op{{T: "send", Pending: u(2)}, {T: "send"}, {T: "send", Pending: u(2)}}},
+		{"overlapping-sends", []c08Op{{T: "send", Pending: u(5), Overlap: true}, {T: "send", Pending: u(5)}, {T: "send", Pending: u(5)}}},
+		{"overlapping-sends-fresh", []c08Op{{T: "send", Pending: u(0), Overlap: true}, {T: "send", Pending: u(0)}, {T: "send", Pending: u(0), Overlap: true}, {T: "send", Pending: u(0)}}},
+		{"overlapping-after-fail", []c08Op{{T: "send", Pending: u(3)}, {T: "send", Pending: u(3), Fault: "submit"}, {T: "send", Pending: u(3), Overlap: true}, {T: "send", Pending: u(3)}, {T: "send", Pending: u(4)}}},
 	}
 	for _, f := range faults {
 		fixed = append(fixed, c08In{"fault-" + f, []c08Op{{T: "send", Pending: u(0), Fault: f}, {T: "send", Pending: u(0)}, {T: "send", Pending: u(1), Fault: f}, {T: "send", Pending: u(1), Fault: f}, {T: "send", Pending: u(1)}}})
@@ -217,6 +288,15 @@ func TestVerifC08(t *testing.T) {
 				if rng.chance(20) {
 					tag = "random+stale-restart"
 				}
+			}
+		}
+		// some neighbouring fault-free sends with the same answer are issued at the same time
+		for j := 0; j+1 < len(ops); j++ {
+			a, b := ops[j], ops[j+1]
+			if a.T == "send" && b.T == "send" && a.Fault == "" && b.Fault == "" && a.Pending != nil && b.Pending != nil &&
+				*a.Pending == *b.Pending && rng.chance(12) {
+				ops[j].Overlap = true
+				j++
 			}
 		}
 		in := c08In{Tag: tag, Ops: ops}
